@@ -72,40 +72,78 @@ Proof. exact response_head. Qed.
 Print Assumptions C14_response_head.
 
 (* keep-alive: for every number of requests on one connection and every interleaving of their
-   steps under the mutex, a request is only ever handed the response that answers it *)
+   steps (and of hyper's connection task) under the mutex, a request is only ever handed the
+   response that answers it -- for the pinned code ([w = false]) and the repaired code alike *)
 Theorem C14_fifo :
-  forall (sched : list nat) (t r : nat),
-  delivered (crun true cinit sched) t = Some r -> r = t.
+  forall (w : bool) (sched : list actor) (t r : nat),
+  delivered (crun true w cinit sched) t = Some r -> r = t.
 Proof. exact fifo. Qed.
 Print Assumptions C14_fifo.
 
 (* the same for any number of concurrent client connections, each with its own upstream
-   connection; schedules interleave (connection, request) steps arbitrarily *)
+   connection; schedules interleave (connection, actor) steps arbitrarily *)
 Theorem C14_fifo_connections :
-  forall (sched : list (nat * nat)) (cid t r : nat),
-  delivered (srun sinit sched cid) t = Some r -> r = t.
+  forall (w : bool) (sched : list (nat * actor)) (cid t r : nat),
+  delivered (srun w sinit sched cid) t = Some r -> r = t.
 Proof. exact fifo_connections. Qed.
 Print Assumptions C14_fifo_connections.
 
 (* at most one request of a connection is between "mutex taken" and "response head received" *)
 Theorem C14_mutex_exclusive :
-  forall (sched : list nat) (t t' : nat),
-  critical (pcs (crun true cinit sched) t) = true ->
-  critical (pcs (crun true cinit sched) t') = true -> t = t'.
+  forall (w : bool) (sched : list actor) (t t' : nat),
+  critical (pcs (crun true w cinit sched) t) = true ->
+  critical (pcs (crun true w cinit sched) t') = true -> t = t'.
 Proof. exact mutex_exclusive. Qed.
 Print Assumptions C14_mutex_exclusive.
 
+(* "each response going to the request that caused it" also needs every request to be relayed.
+   FINDING F12 (known_findings.d/C14.json): the pinned code calls hyper's
+   SendRequest::send_request without waiting for SendRequest::ready; a request that arrives
+   before the connection task has signalled readiness after the previous exchange is answered
+   503 by the proxy and never reaches the host.  The faithful model refutes the full statement: *)
+Theorem C14_every_request_relayed_refuted :
+  exists (sched : list actor) (t : nat),
+    pcs (crun true false cinit sched) t = PFailed /\ ~ In t (upwire (crun true false cinit sched)).
+Proof. exact spurious_failure_refuted. Qed.
+Print Assumptions C14_every_request_relayed_refuted.
+
+(* the strongest true statement for the pinned code: outside the class of schedules in which a
+   send_request overtakes the readiness signal, no request is failed *)
+Theorem C14_every_request_relayed_partial :
+  forall (sched : list actor) (t : nat),
+  KnownClass_C14_send_before_ready sched = false ->
+  pcs (crun true false cinit sched) t <> PFailed.
+Proof. exact no_spurious_failure_partial. Qed.
+Print Assumptions C14_every_request_relayed_partial.
+
+(* and for the repaired code (patches/fix-C14-wait-upstream-ready.diff: `sender.ready().await`
+   before `send_request`) the full statement: under every schedule no request is failed *)
+Theorem C14_every_request_relayed_fixed :
+  forall (sched : list actor) (t : nat), pcs (crun true true cinit sched) t <> PFailed.
+Proof. exact no_spurious_failure. Qed.
+Print Assumptions C14_every_request_relayed_fixed.
+
 (* non-vacuity and contrasts:
    - a 3-request interleaving with lock contention completes with every request paired with
-     its own response; without the mutex a 2-request interleaving swaps responses;
+     its own response; the refuting schedule completes under the repaired code;
+   - the known class is inhabited by a schedule that does fail a request;
+   - without the mutex a second request issued while the first is in flight is failed by
+     hyper's dispatcher, with it the request waits;
    - the byte mapper is the identity on a frame holding 0x00, 0x7f, 0x80, 0xff, while the same
      function at width 2 is not the identity (so the theorem is about the width);
    - a response with a host-supplied marker header and a repeated header keeps everything but
      the marker value. *)
 Example C14_nonvacuous :
-  (let c := crun true cinit [0; 1; 2; 1; 0; 0; 2; 0; 1; 2; 1; 1; 1; 2; 2; 2; 2]%nat in
+  (let c := crun true false cinit
+              [ConnTask; Req 0; Req 1; Req 2; Req 1; Req 0; Req 0; Req 2; Req 0; ConnTask;
+               Req 1; Req 2; Req 1; Req 1; Req 1; ConnTask; Req 2; Req 2; Req 2; Req 2]%nat in
    pcs c 0%nat = PDone 0 /\ pcs c 1%nat = PDone 1 /\ pcs c 2%nat = PDone 2) /\
-  delivered (crun false cinit [0; 1; 0; 1; 1]%nat) 1%nat = Some 0%nat /\
+  (let c := crun true true cinit
+              [Req 0; Req 0; Req 0; Req 0; Req 1; Req 1; Req 1; ConnTask; Req 1; Req 1; Req 1]%nat in
+   pcs c 0%nat = PDone 0 /\ pcs c 1%nat = PDone 1) /\
+  (exists sched t, KnownClass_C14_send_before_ready sched = true /\
+                   pcs (crun true false cinit sched) t = PFailed) /\
+  pcs (crun false false cinit [Req 0; Req 1; Req 0; Req 1]%nat) 1%nat = PFailed /\
   map_frame (FData [0; 127; 128; 255]) = FData [0; 127; 128; 255] /\
   to_be true 2 1 = 256 /\
   (let r := {| s_status := 404;
@@ -113,4 +151,9 @@ Example C14_nonvacuous :
                s_frames := [FData [1]; FData []; FData [2; 3]] |} in
    s_headers (client_resp_of r) = [([120], [49]); ([120], [50]); (auth_header, marker_value)] /\
    body_of (s_frames (client_resp_of r)) = [1; 2; 3] /\ s_status (client_resp_of r) = 404).
-Proof. vm_compute. repeat split. Qed.
+Proof.
+  split; [vm_compute; repeat split|].
+  split; [vm_compute; repeat split|].
+  split; [exact known_class_witness|].
+  vm_compute. repeat split.
+Qed.
